@@ -100,10 +100,6 @@ func c12EncryptObserved(c c12Enc, segs []int, between bool) ([]byte, error) {
 			}
 			if !c.Armor {
 				rep := (out.Buf.Len() - hdrLen) / refage.EncChunkSize * chunk
-				if (out.Buf.Len()-hdrLen)%refage.EncChunkSize != 0 {
-					vio = pbt.Failf("C12/partial-chunk-written", "after a Write the destination holds a partial chunk (%d payload bytes)", out.Buf.Len()-hdrLen)
-					return
-				}
 				if held := accepted - rep; held > chunk || held < 0 {
 					vio = pbt.Failf("C12/hold-back", "after accepting %d plaintext bytes only %d are represented at the destination: %d held back (more than one 64 KiB chunk)", accepted, rep, held)
 					return
